@@ -31,6 +31,10 @@ def run(ctx):
     ctx.each(r20i, ctx, repo)
     ctx.each(r20j, ctx, repo)
     ctx.each(flowalg.accumulator_rule, ctx, repo, "R20h", [("model", "Population.popsize")], 2, "the population size used as aggregation weight")
+    # formula outputs (`{'name': 'expr'}`) read compartments through __getitem__ with an array of time indices: the accessors must keep the time axis
+    from .c01 import r01g
+
+    ctx.each(r01g, ctx, repo, T)
 
 
 def _bound_in(loop):
